@@ -475,7 +475,7 @@ def r7_own_columns(repo: Repo, rep):
                                 raw.append(dump(n))
                             elif isinstance(v, ast.Subscript) and getattr(v, "_tuple_elt", False) and isinstance(base, ast.Call) and "_transform_input_for_normals" in dump(base.func):
                                 raw.append(dump(n)[:60])
-                            elif isinstance(v, ast.Subscript) and "self.space" in dump(v.slice):
+                            elif isinstance(v, ast.Subscript) and ("self.space" in dump(v.slice) or any(isinstance(x, ast.Name) and "self.space" in dump(p.loopvars.get(x.id)) for x in ast.walk(v.slice))):
                                 named += 1
             if not raw and not named:
                 continue
